@@ -334,3 +334,26 @@ PROPS["C07"] = {
     ],
     "min_nontrivial": {"quick": 1000, "thorough": 20000},
 }
+
+PROPS["C08"] = {
+    "level": "exploration",
+    "design_ref": "DESIGN.md §4.8",
+    "technique": "exhaustive enumeration of the (offset, count, result size, batch size) grid x statement kind x iteration mode; oracle = slice [s, s+n) of the unlimited result of the same statement (tie-aware), deleted-key set for DELETE",
+    "level_text": "Bounded-exhaustive exploration: batch sizes {1,2,3,4,5,8} (thorough + {6,7,16}) x result sizes 0..3b+2 x offsets 0..r+2 x counts 0..r+2, plus "
+                  "b=32 with r,s,n in {0,1,31,32,33,63,64,65,96,97}; this contains every combination in which offset or count equals a multiple of the "
+                  "batch size, zero, and beyond the end. Each point is run for six statement kinds (plain, ORDER BY unique keys, ORDER BY with heavy ties, "
+                  "aggregate with GROUP BY where the limit is pushed into the aggregate node, aggregate with ORDER BY, DELETE ... LIMIT) x {row, batch}, in "
+                  "both spellings. The limited result must equal the slice of the unlimited result of the same statement in the same mode (with ties: "
+                  "same length, same order keys position by position, rows a sub-multiset); for DELETE the removed keys and every key passed to "
+                  "Delete/BatchDelete must be exactly the slice of the reference-filtered key list. Non-matching pairs are interleaved so that child "
+                  "batches have varying sizes. rapid adds large random points (result sizes to 200, batch sizes to 64).",
+    "level_note": "The unlimited result is itself compared with the reference-filtered list for the un-ordered kinds. Negative or huge LIMIT numbers are outside the domain.",
+    "rule": "enumerated grid points x kind x mode x spelling (each once) + rapid points. Non-trivial = 0 < offset and offset+count < result size, or "
+            "offset is a positive multiple of the batch size, or count is a positive multiple of the batch size; distinct = distinct grid points x kind x mode.",
+    "assumptions": COMMON_ASSUMPTIONS,
+    "legs": [
+        {"test": "TestC08Grid", "kind": "enum", "quick": {"shards": 8}, "thorough": {"shards": 16}},
+        {"test": "TestC08Sampled", "kind": "rapid", "quick": {"checks": 2000, "shards": 2}, "thorough": {"checks": 50000, "shards": 8}},
+    ],
+    "min_nontrivial": {"quick": 20000, "thorough": 100000},
+}
